@@ -14,8 +14,9 @@ hf = os.path.join(ROOT, "MANIFEST.hooks")
 if os.path.exists(hf):
     hooks = [l.split()[0] for l in open(hf) if l.strip() and not l.startswith("#")]
 checks = []
+integrated = {l.strip() for l in open(os.path.join(ROOT, "props", "CLAIMED")) if l.strip() and not l.startswith("#")}
 for i in ids:
-    if i not in cfgs:
+    if i not in cfgs or i not in integrated:
         continue
     c = cfgs[i]
     checks.append({
